@@ -234,4 +234,170 @@ theorem writeSurfaceT_ok {al : Alloc} (ha : AlOK al) (rayon : Bool) (e : Enc) (h
       rw [pure_some', hw]
       exact ⟨k, rfl, hk⟩
 
+/-! ### `Linked` is kept by every call
+
+The only way a call changes `iter` is `SurfaceIterator::advance`, which keeps the variant and, for a texture iterator,
+the texture (`first`); no call assigns `layout`. -/
+
+/-- `it'` walks what `it` walks: same variant, and a texture iterator has the same texture -/
+def SameWalk : SurfIter → SurfIter → Prop
+  | .tex t, .tex t' => t'.first = t.first
+  | .vol _, .vol _ => True
+  | _, _ => False
+
+theorem SameWalk.refl (it : SurfIter) : SameWalk it it := by
+  cases it <;> simp [SameWalk]
+
+theorem SameWalk.trans {a b c : SurfIter} (h1 : SameWalk a b) (h2 : SameWalk b c) : SameWalk a c := by
+  cases a <;> cases b <;> cases c <;> simp [SameWalk] at h1 h2 ⊢
+  rw [h2, h1]
+
+theorem TexIter.advance_first (t : TexIter) : t.advance.first = t.first := by
+  unfold TexIter.advance
+  by_cases h : t.idx < t.len
+  · rw [if_pos h]
+    dsimp only
+    by_cases h2 : (t.level + 1) % U8 < t.first.mips
+    · rw [if_pos h2]
+    · rw [if_neg h2]
+  · rw [if_neg h]
+
+theorem advanceP_sameWalk {it it' : SurfIter} (h : it.advanceP = some it') : SameWalk it it' := by
+  cases it with
+  | tex t =>
+    have : (SurfIter.tex t).advanceP = some (.tex t.advance) := rfl
+    rw [this] at h
+    rw [← Option.some.inj h]
+    exact TexIter.advance_first t
+  | vol t =>
+    have : (SurfIter.vol t).advanceP = t.advanceP.map .vol := rfl
+    rw [this] at h
+    cases ht : t.advanceP with
+    | none => rw [ht] at h; simp at h
+    | some t' =>
+      rw [ht] at h
+      simp only [Option.map_some, Option.some.injEq] at h
+      rw [← h]
+      trivial
+
+theorem linked_of_sameWalk {e e' : Enc} (hL : Linked e) (hl : e'.layout = e.layout)
+    (hw : SameWalk e.iter e'.iter) : Linked e' := by
+  unfold Linked at hL ⊢
+  rw [hl]
+  cases h : e.iter <;> cases h' : e'.iter <;> rw [h, h'] at hw <;> rw [h] at hL <;> simp [SameWalk] at hw hL ⊢
+  · rw [hw]; exact hL
+  · exact hL
+
+/-- the generation loop only advances the iterator and never assigns `layout` -/
+theorem genLoop_walk : ∀ (fuel : Nat) (e : Enc),
+    (e.genLoop fuel).1.layout = e.layout ∧ SameWalk e.iter (e.genLoop fuel).1.iter := by
+  intro fuel
+  induction fuel with
+  | zero => intro e; exact ⟨rfl, SameWalk.refl _⟩
+  | succ fuel ih =>
+    intro e
+    unfold Enc.genLoop
+    cases hc : e.iter.currentP with
+    | none => exact ⟨rfl, SameWalk.refl _⟩
+    | some r =>
+      cases r with
+      | none => exact ⟨rfl, SameWalk.refl _⟩
+      | some s =>
+        simp only
+        by_cases h0 : s.level = 0
+        · rw [if_pos h0]; exact ⟨rfl, SameWalk.refl _⟩
+        · rw [if_neg h0]
+          by_cases hs : (!e.sizeOk s.w s.h) = true
+          · rw [if_pos hs]; exact ⟨rfl, SameWalk.refl _⟩
+          · rw [if_neg hs]
+            cases ha : e.iter.advanceP with
+            | none => exact ⟨rfl, SameWalk.refl _⟩
+            | some it' =>
+              simp only
+              obtain ⟨h1, h2⟩ := ih { e with iter := it', written := e.written + s.len }
+              exact ⟨h1, SameWalk.trans (advanceP_sameWalk ha) h2⟩
+
+theorem write_walk (e : Enc) (w h : Nat) (c : Bool) :
+    (e.write w h c).1.layout = e.layout ∧ SameWalk e.iter (e.write w h c).1.iter := by
+  unfold Enc.write
+  cases hc : e.iter.currentP with
+  | none => exact ⟨rfl, SameWalk.refl _⟩
+  | some r =>
+    cases r with
+    | none => exact ⟨rfl, SameWalk.refl _⟩
+    | some s =>
+      simp only
+      by_cases h1 : (s.w, s.h) ≠ normSizeE w h
+      · rw [if_pos h1]; exact ⟨rfl, SameWalk.refl _⟩
+      · rw [if_neg h1]
+        by_cases h2 : c = true
+        · rw [if_pos h2]; exact ⟨rfl, SameWalk.refl _⟩
+        · rw [if_neg h2]
+          by_cases h3 : (!e.sizeOk s.w s.h) = true
+          · rw [if_pos h3]; exact ⟨rfl, SameWalk.refl _⟩
+          · rw [if_neg h3]
+            cases ha : e.iter.advanceP with
+            | none => exact ⟨rfl, SameWalk.refl _⟩
+            | some it' =>
+              simp only
+              by_cases h4 : e.toGen s > 0
+              · rw [if_pos h4]
+                obtain ⟨g1, g2⟩ := genLoop_walk 255 { e with iter := it', written := e.written + s.len }
+                exact ⟨g1, SameWalk.trans (advanceP_sameWalk ha) g2⟩
+              · rw [if_neg h4]; exact ⟨rfl, advanceP_sameWalk ha⟩
+
+/-- every call kind of `Enc.step` — write (accepted, rejected, failed while generating), cancelled write, the
+`mipmaps.generate` option, `finish` — keeps `Linked`; no other hypothesis on the state is needed -/
+theorem linked_step (e : Enc) (hL : Linked e) (op : EncOp) : Linked (e.step op).1 := by
+  cases op with
+  | setGenerate b => exact hL
+  | finish => exact hL
+  | write w h => exact linked_of_sameWalk hL (write_walk e w h false).1 (write_walk e w h false).2
+  | writeCancelled w h => exact linked_of_sameWalk hL (write_walk e w h true).1 (write_walk e w h true).2
+
+/-- `Linked` holds after any sequence of calls (induction over the list; no depth bound) -/
+theorem linked_history (ops : List EncOp) : ∀ (e : Enc), Linked e → Linked (C11.run e ops).1 := by
+  induction ops with
+  | nil => intro e hL; exact hL
+  | cons op rest ih =>
+    intro e hL
+    simp only [C11.run]
+    exact ih _ (linked_step e hL op)
+
+/-- `SurfaceIterator::new` of a layout `DataLayout::from_header_with` accepted satisfies C08's iterator invariant (the
+`hfresh` part of `C08.new_inv`, which does not need the decoder's `i64::MAX` bound; same proof as
+`Reader.new_iterInv` of Proofs/C01.lean, repeated here so that C15 does not import the reader) -/
+theorem fresh_iterInv (hd : LayoutHeader) (px : PixelInfo) (hp : px.WF) (hr : C02.HeaderInRange hd)
+    (hm : 1 ≤ hd.mipmapCount) (L : DataLayout) (h : layoutOf hd px = some (.ok L)) :
+    C08.IterInv (SurfIter.new L) := by
+  obtain ⟨hv, _, hmips, hml, hvol, harr⟩ := C02.layoutOf_valid hd px hp hr L h
+  cases L with
+  | texture t =>
+    obtain ⟨tv, h0⟩ := hv
+    have hf := tv.fits
+    rw [h0] at hf
+    exact ⟨tv.wf, h0, by show 1 ≤ t.mips; rw [show t.mips = hd.mipmapCount from hmips]; exact hm,
+      by show t.mips < 256; rw [show t.mips = hd.mipmapCount from hmips]; exact hml,
+      by simp [U32], by simpa using hf, tv.len_lt, tv.short,
+      Or.inl ⟨by show 0 < 1; omega, by show 0 < t.mips; rw [show t.mips = hd.mipmapCount from hmips]; omega⟩⟩
+  | volume v =>
+    obtain ⟨hdep, hdpos⟩ := hvol v rfl
+    exact ⟨hv, by show 1 ≤ v.mips; rw [show v.mips = hd.mipmapCount from hmips]; exact hm,
+      by show v.mips < 256; rw [show v.mips = hd.mipmapCount from hmips]; exact hml,
+      hr.d _ hdep, hdpos,
+      Or.inl ⟨by show 0 < v.mips; rw [show v.mips = hd.mipmapCount from hmips]; omega,
+        mipSize_pos _ _⟩⟩
+  | textureArray a =>
+    have hal := harr a rfl
+    have hmod : a.arrayLen % U32 = a.arrayLen := Nat.mod_eq_of_lt hal
+    show TexIter.Inv ⟨a.first, a.arrayLen % U32, 0, 0⟩
+    rw [hmod]
+    refine ⟨hv.wf, rfl, by show 1 ≤ a.mips; rw [show a.mips = hd.mipmapCount from hmips]; exact hm,
+      by show a.mips < 256; rw [show a.mips = hd.mipmapCount from hmips]; exact hml,
+      hal, hv.fits, hv.tex, hv.short, ?_⟩
+    by_cases h0 : a.arrayLen = 0
+    · exact Or.inr ⟨by show 0 = a.arrayLen; omega, rfl⟩
+    · exact Or.inl ⟨by show 0 < a.arrayLen; omega,
+        by show 0 < a.mips; rw [show a.mips = hd.mipmapCount from hmips]; omega⟩
+
 end Dds.TrapMip
